@@ -6,7 +6,8 @@
    rs / ps are the regex-search and predicate oracles: the theorems hold for every
    interpretation of them, every settings value and every name. *)
 From Coq Require Import List ZArith Bool.
-From YV Require Import Common.Corr Model.Yaqlized Lemmas.YaqlizedPolicy Gen.Effects Lemmas.YaqlizedEffects.
+From YV Require Import Common.Corr Gen.CharClass Gen.LexFacts Model.Lexer Lemmas.LiteralsTokens.
+From YV Require Import Model.Yaqlized Lemmas.YaqlizedPolicy Gen.Effects Lemmas.YaqlizedEffects Model.YaqlizedPaths Lemmas.YaqlizedPaths.
 Import ListNotations.
 Open Scope Z_scope.
 
@@ -184,3 +185,143 @@ Example yaqlized_overloads_in_table :
   has_gated_fn [35; 105; 110; 100; 101; 120; 101; 114]%Z = true /\                      (* #indexer *)
   has_gated_fn [35; 111; 112; 101; 114; 97; 116; 111; 114; 95; 46]%Z = true.            (* #operator_. *)
 Proof. exact yaqlized_overloads_listed. Qed.
+
+(* =====================================================================================
+   Keyword names: the lexer (Model/Lexer.v, tied to lexer.py by C03/C16's correspondence) and
+   utils.is_keyword (Model/YaqlizedPaths.v, tied by this property's correspondence)
+   ===================================================================================== *)
+
+(* no KEYWORD_STRING token of any text has a value starting with '__'; it is always a name
+   utils.is_keyword accepts.  For EVERY configuration in which KEYWORD_STRING is not also the
+   type of a string rule / a constant keyword ... *)
+Theorem C07_keyword_no_dunder : forall cfg, kw_reserved cfg = true -> forall s t w,
+  In t (fst (lex cfg s)) -> tk_kind t = K_KEYWORD -> tk_val t = VText w ->
+  is_keyword cfg w = true /\ starts_dunder w = false.
+Proof. exact keyword_tokens_are_keywords. Qed.
+
+(* ... in particular for the tables regenerated from the current tree *)
+Theorem C07_keyword_no_dunder_current : forall names s t w,
+  In t (fst (lex (default_cfg names) s)) -> tk_kind t = K_KEYWORD -> tk_val t = VText w ->
+  is_keyword (default_cfg names) w = true /\ starts_dunder w = false.
+Proof. exact (fun names => keyword_tokens_are_keywords (default_cfg names) (default_cfg_kw_reserved names)). Qed.
+
+(* a text that begins with '__' followed by word characters is a lexical error at position 0 *)
+Theorem C07_dunder_word_is_lexical_error : forall names w, forallb (in_ranges w_ranges) w = true ->
+  lex (default_cfg names) (95 :: 95 :: w) = ([], EndLexErr 0).
+Proof. exact dunder_rejected. Qed.
+
+(* utils.is_keyword is "the keyword rule matches at the start of the text": it rejects every
+   '__' name, exactly like the lexer *)
+Theorem C07_is_keyword_agrees_with_lexer : forall cfg w,
+  (is_keyword cfg w = true <-> m_keyword cfg None w <> MNone) /\
+  (starts_dunder w = true -> is_keyword cfg w = false /\ m_keyword cfg None w = MNone).
+Proof.
+  exact (fun cfg w => conj (is_keyword_m_keyword cfg w)
+    (fun H => conj (is_keyword_no_dunder cfg w H) (m_keyword_dunder_none cfg None w H))).
+Qed.
+
+(* call(name, args, kwargs): the keyword filter either raises or passes the names unchanged,
+   and then none of them starts with '__' *)
+Theorem C07_call_kwargs_filter : forall cfg keys keys', filter_kwargs cfg keys = Some keys' ->
+  keys' = keys /\ forall k, In k keys -> is_keyword cfg k = true /\ starts_dunder k = false.
+Proof. exact filter_kwargs_spec. Qed.
+
+(* the regex the two models were written for is the one in the tree: (?!__)\b[^\W\d]\w*\b *)
+Theorem C07_keyword_regex_pinned :
+  Lexer.assoc [116; 95; 75; 69; 89; 87; 79; 82; 68; 95; 83; 84; 82; 73; 78; 71] rule_sources =
+  Some [40; 63; 33; 95; 95; 41; 92; 98; 91; 94; 92; 87; 92; 100; 93; 92; 119; 42; 92; 98].
+Proof. reflexivity. Qed.
+
+(* =====================================================================================
+   The paths around the gate: get_property, the system '.', '?.', the other indexers, call()
+   ===================================================================================== *)
+
+(* an object the form's Yaqlized type check rejects (not yaqlized at all, or that switch off):
+   every path ends in a resolution error, the RuntimeError of the kwargs filter, or overload
+   resolution among REGISTERED functions (C07_only_gated_payloads_touch_hosts says what those
+   may do); none performs a member access *)
+Theorem C07_fallback_never_reaches_host : forall rs ps cfg reg_fn reg_meth st p,
+  (forall f, path_form p = Some f -> yaqlized_check f st = false) ->
+  (forall m, run_path rs ps cfg reg_fn reg_meth st p <> FReach m) /\
+  (run_path rs ps cfg reg_fn reg_meth st p = FDenied ENoMatch \/
+   run_path rs ps cfg reg_fn reg_meth st p = FDenied ERuntime \/
+   exists fn, run_path rs ps cfg reg_fn reg_meth st p = FDispatch fn /\
+              (fn = indexer_name \/ reg_fn fn = true \/ reg_meth fn = true)).
+Proof.
+  exact (fun rs ps cfg reg_fn reg_meth st p H =>
+    conj (fun m E => proj1 (fallback_never_reaches_host rs ps cfg reg_fn reg_meth st p H) (ex_intro _ m E))
+         (proj2 (fallback_never_reaches_host rs ps cfg reg_fn reg_meth st p H))).
+Qed.
+
+Theorem C07_fallback_not_yaqlized : forall rs ps cfg reg_fn reg_meth p m,
+  run_path rs ps cfg reg_fn reg_meth None p <> FReach m.
+Proof.
+  exact (fun rs ps cfg reg_fn reg_meth p m E =>
+    proj1 (fallback_never_reaches_host rs ps cfg reg_fn reg_meth None p (fun f _ => eq_refl)) (ex_intro _ m E)).
+Qed.
+
+(* call() never reaches a member, whatever the object's settings *)
+Theorem C07_call_never_reaches : forall rs ps cfg reg_fn reg_meth st n kw m,
+  run_path rs ps cfg reg_fn reg_meth st (PCallFn n kw) <> FReach m /\
+  run_path rs ps cfg reg_fn reg_meth st (PCallMeth n kw) <> FReach m.
+Proof.
+  exact (fun rs ps cfg reg_fn reg_meth st n kw m => conj
+    (fun E => call_never_reaches rs ps cfg reg_fn reg_meth st false n kw _ eq_refl (ex_intro _ m E))
+    (fun E => call_never_reaches rs ps cfg reg_fn reg_meth st true n kw _ eq_refl (ex_intro _ m E))).
+Qed.
+
+(* whatever path reaches a member does so through the gate of C07_policy_sound: '.', '?.' or
+   '[]' on an object with settings, by a name that does not begin with '_' *)
+Theorem C07_every_reach_is_gated : forall rs ps cfg reg_fn reg_meth st p m,
+  run_path rs ps cfg reg_fn reg_meth st p = FReach m ->
+  exists f n s, path_form p = Some f /\ st = Some s /\ access rs ps f st n = Reach m /\ starts_underscore n = false.
+Proof. exact any_reach_is_granted. Qed.
+
+(* =====================================================================================
+   Settings inheritance (instance first, then class) and auto-yaqlization
+   ===================================================================================== *)
+
+(* _auto_yaqlize leaves an object that already has settings - its own or its class's - exactly
+   as it is, so every access decision afterwards is the host's own policy's decision *)
+Theorem C07_auto_yaqlize_keeps_policy : forall rs ps parent o s,
+  effective o = Some s ->
+  auto_yaqlize parent o = o /\ effective (auto_yaqlize parent o) = Some s /\
+  forall f n, access rs ps f (effective (auto_yaqlize parent o)) n = access rs ps f (Some s) n.
+Proof.
+  exact (fun rs ps parent o s H => conj (proj1 (auto_yaqlize_keeps_policy parent o s H))
+    (conj (proj2 (auto_yaqlize_keeps_policy parent o s H)) (fun f n => auto_yaqlize_never_loosens rs ps parent o s f n H))).
+Qed.
+
+(* it writes only where there were no settings at all, only under an auto-yaqlizing parent, only on
+   the instance (never on the class), and what it writes are the automatic defaults *)
+Theorem C07_auto_yaqlize_writes_only_fresh_instances : forall parent o,
+  h_class (auto_yaqlize parent o) = h_class o /\
+  (auto_yaqlize parent o <> o ->
+     effective o = None /\ s_auto parent = true /\ h_fixed o = false /\
+     h_inst (auto_yaqlize parent o) = Some auto_default).
+Proof.
+  exact (fun parent o => conj (auto_yaqlize_class_untouched parent o)
+    (fun H => match auto_yaqlize_writes parent o H with
+              | conj A (conj B (conj C (conj D _))) => conj A (conj B (conj C D)) end)).
+Qed.
+
+(* the chain theorems above (walk / after_auto) are about the effective view of this step *)
+Theorem C07_auto_yaqlize_is_after_auto : forall parent o,
+  effective (auto_yaqlize parent o) = after_auto parent (view o).
+Proof. exact auto_yaqlize_view. Qed.
+
+Example class_policy_survives_auto :
+  let o := {| h_inst := None; h_class := Some (build_settings ex_args); h_fixed := false |} in
+  effective (auto_yaqlize auto_default o) = Some (build_settings ex_args) /\
+  access ex_rs ex_ps FAttr (effective (auto_yaqlize auto_default o)) bar = Denied EAttribute.
+Proof. split; reflexivity. Qed.
+
+Example fresh_result_gets_defaults :
+  let o := {| h_inst := None; h_class := None; h_fixed := false |} in
+  effective (auto_yaqlize auto_default o) = Some auto_default.
+Proof. reflexivity. Qed.
+
+Example fallback_example :
+  run_path ex_rs ex_ps (default_cfg (fun _ => None)) (fun _ => false) (fun _ => false) None (PProp foo) = FDenied ENoMatch /\
+  run_path ex_rs ex_ps (default_cfg (fun _ => None)) (fun _ => true) (fun _ => true) None (PCallMeth foo [[95; 95; 120]]) = FDenied ERuntime.
+Proof. split; vm_compute; reflexivity. Qed.
